@@ -1,7 +1,7 @@
 use core::{
   fmt,
   mem::{self, MaybeUninit},
-  ptr::{self, NonNull},
+  ptr::NonNull,
   slice,
 };
 
@@ -324,12 +324,10 @@ impl Allocator for Arena {
       .expect("allocated size is not zero, but get None");
     let ptr = unsafe { self.get_aligned_pointer_mut::<T>(allocated.ptr_offset as usize) };
     if mem::needs_drop::<T>() {
-      unsafe {
-        let ptr: *mut MaybeUninit<T> = ptr.as_ptr().cast();
-        ptr::write(ptr, MaybeUninit::uninit());
-
-        Ok(RefMut::new(ptr::read(ptr), allocated, self))
-      }
+      // the value lives in the handle until it is dropped; the memory in the ARENA is only reserved for it
+      // (nothing is written there: an uninitialised `T` copied into the ARENA would put stack garbage into it)
+      let _ = ptr;
+      Ok(RefMut::new(MaybeUninit::uninit(), allocated, self))
     } else {
       Ok(RefMut::new_inline(ptr, allocated, self))
     }
